@@ -87,6 +87,30 @@ BEGIN CHARACTERS;
   ;
 END;
 """),
+    # 2b: continuous characters, interleaved in three pages (short rows after a cut are only caught by the closing row-length check)
+    ("continuous-interleaved", """#NEXUS
+BEGIN TAXA;
+  DIMENSIONS NTAX=3;
+  TAXLABELS alpha beta gamma;
+END;
+BEGIN CHARACTERS;
+  DIMENSIONS NCHAR=6;
+  FORMAT DATATYPE=CONTINUOUS INTERLEAVE;
+  MATRIX
+    alpha 0.1 -2.5
+    beta  1 2
+    gamma 3.5 4e1
+
+    alpha 3e2 7
+    beta  3 4
+    gamma 0.25 -1
+
+    alpha 1.5 2.5
+    beta  5 6
+    gamma 8 9
+  ;
+END;
+"""),
     # 3: standard data type, symbols, polymorphism / ambiguity, matchchar; SETS block; unknown block
     ("standard", """#NEXUS
 BEGIN TAXA;
@@ -290,7 +314,7 @@ def gen_nexus(rng):
             parts.append(K("dimensions ntax=") + "%d " % ntax + K("nchar=") + "%d;" % nchar + nl)
         else:
             parts.append(K("dimensions nchar=") + "%d;" % nchar + nl)
-        inter = dtype != "continuous" and nchar >= 4 and rng.random() < 0.4
+        inter = nchar >= 4 and rng.random() < 0.4
         fmt = K("format datatype=") + K(dtype)
         if dtype == "standard":
             fmt += K(" symbols=") + "\"01\""
